@@ -24,6 +24,8 @@ pub struct TypedCfg {
     /// allow arguments bound to an OMITTED variable while the argument has a default (construct of C06-F1)
     pub omitted_var_with_arg_default: bool,
     pub ops: Vec<OpKind>,
+    /// response keys may repeat within a grouped field set (un-aliased duplicates, cloned fields, a fragment
+    /// spread twice): the construct of C04-F1
     pub repeats: bool,
 }
 impl Default for TypedCfg {
@@ -259,7 +261,7 @@ impl<'a> G<'a> {
         let shape = fd.ty.show();
         let has_args = !fd.args.is_empty();
         let unaliased_ok = !has_args && self.shapes.get(&fd.name).map_or(true, |sh| sh == &shape);
-        if unaliased_ok && s.chance(2, 3) {
+        if unaliased_ok && self.cfg.repeats && s.chance(2, 3) {
             self.shapes.insert(fd.name.clone(), shape);
         } else {
             f.alias = Some(Name::new(self.alias()));
@@ -347,7 +349,7 @@ impl<'a> G<'a> {
                         self.frags.push(FragDef { pos: Pos::default(), name: Name::new(name.clone()), cond: Name::new(cond), cond_pos: Pos::default(), directives: vec![], sel });
                         items.push(Selection::Spread(Spread { pos: Pos::default(), name: Name::new(name.clone()), directives }));
                         // sometimes spread the same fragment twice (visited-set semantics)
-                        if s.chance(1, 6) {
+                        if self.cfg.repeats && s.chance(1, 6) {
                             items.push(Selection::Spread(Spread { pos: Pos::default(), name: Name::new(name), directives: vec![] }));
                         }
                     }
